@@ -23,10 +23,20 @@ def leadingWs : List Char → Nat
 
 def isBlank (l : List Char) : Bool := l.all isPyWs
 
-/-- indentation of the first non-blank line -/
-def baseIndent : List (List Char) → Option Nat
+/-- a `#` comment line -/
+def isCommentLine (l : List Char) : Bool := (lstripL l).head? == some '#'
+
+/-- indentation of the first non-blank line (when `skipC`: that is not a `#` comment either) -/
+def baseIndentP (skipC : Bool) : List (List Char) → Option Nat
   | [] => none
-  | l :: ls => if isBlank l then baseIndent ls else some (leadingWs l)
+  | l :: ls => if isBlank l || (skipC && isCommentLine l) then baseIndentP skipC ls else some (leadingWs l)
+
+/-- the indentation base of a block body: the first non-blank line that is not a `#` comment; a body made of
+comments only falls back to its first non-blank line -/
+def baseIndent (ls : List (List Char)) : Option Nat :=
+  match baseIndentP true ls with
+  | some b => some b
+  | none => baseIndentP false ls
 
 def dedentLine (base : Nat) (l : List Char) : List Char :=
   if isBlank l then [] else if leadingWs l ≥ base then l.drop base else l
